@@ -59,6 +59,12 @@ def gen_hashes(rng):
     return {a: HASHES[a] for a in algs}
 
 
+def gen_nested_hashes(rng):
+    """A hashes dictionary for use INSIDE a contributing value (an extension, a dictionary): it contributes in full,
+    the one-hash rule is for the observable's own toplevel `hashes` only."""
+    return {a: HASHES[a] for a in rng.sample(sorted(HASHES), rng.randrange(2, 4))}
+
+
 def gen_item(rng, n):
     """(type, contributing values, non-contributing values) - plain JSON, canonical spellings."""
     t = rng.choice(TYPES)
@@ -103,10 +109,18 @@ def gen_item(rng, n):
             # an unregistered property extension: its content is kept as given and contributes as given
             c['extensions'] = {'extension-definition--' + C.mkuuid(rng.randrange(3), 'c06ext'): {
                 'extension_type': 'property-extension', 'scores': rng.sample([1.0, 10.0, 1e-06, 3.5, 1e22, 42], 3), 'label': pick_str(rng) or 'l'}}
+            if rng.random() < 0.5:
+                next(iter(c['extensions'].values()))['hashes'] = gen_nested_hashes(rng)
         elif rng.random() < 0.4:
             c['extensions'] = {'ntfs-ext': {'sid': pick_str(rng) or 's', 'alternate_data_streams': [{'name': 'second.stream', 'size': rng.randrange(10 ** 6)}]}}
             if rng.random() < 0.5:
+                c['extensions']['ntfs-ext']['alternate_data_streams'][0]['hashes'] = gen_nested_hashes(rng)
+            if rng.random() < 0.5:
                 c['extensions']['windows-pebinary-ext'] = {'pe_type': 'exe', 'sections': [{'name': '.text', 'entropy': rng.choice([7.25, 1e-7, 1.2345678901234568e+20, 0.1, 100.0, 6.02e23])}]}
+                if rng.random() < 0.5:
+                    c['extensions']['windows-pebinary-ext']['sections'][0]['hashes'] = gen_nested_hashes(rng)
+                if rng.random() < 0.3:
+                    c['extensions']['windows-pebinary-ext']['optional_header'] = {'magic_hex': '010b', 'hashes': gen_nested_hashes(rng)}
         if some():
             nc['size'] = rng.randrange(10 ** 9)
         if 'hashes' not in c and 'name' not in c:
@@ -175,6 +189,8 @@ def gen_item(rng, n):
                 # values a dictionary property keeps as they are: numbers directly inside arrays, nested arrays, booleans, integral floats
                 c['meta']['nums'] = rng.sample([1.0, 2.0, 0.5, 1e-05, 1e16, 1e21, -0.0, 100, 2 ** 53, 7.25, 1.5e-7, 123456789.125], rng.randrange(1, 5))
                 c['meta']['grid'] = [[1.0, 2], [True, 'x'], []]
+            if rng.random() < 0.3:
+                c['meta']['hashes'] = gen_nested_hashes(rng)
         nc['note'] = pick_str(rng)
     # an empty string is a present value (it contributes as ""), except where the type refuses it
     c = {k: v for k, v in c.items() if (v != '' or (t, k) in (('email-message', 'subject'), ('email-message', 'body'), ('x-sim-obs-a', 'alpha'),
@@ -283,6 +299,23 @@ class C06(Profile):
                     near['c'][k] = v + 'x'
                 elif isinstance(v, int):
                     near['c'][k] = v + 1
+                elif k in ('extensions', 'meta') and 'hashes' in json.dumps(v):
+                    # differ only in the LAST member of a nested hashes dictionary
+                    stack = [v]
+                    hit = None
+                    while stack:
+                        cur = stack.pop()
+                        if isinstance(cur, dict):
+                            if isinstance(cur.get('hashes'), dict) and len(cur['hashes']) > 1:
+                                hit = cur['hashes']
+                            stack.extend(cur[x] for x in sorted(cur) if x != 'hashes')
+                        elif isinstance(cur, list):
+                            stack.extend(cur)
+                    if hit:
+                        last = list(hit)[-1]
+                        hit[last] = hit[last][:-1] + ('0' if hit[last][-1] != '0' else '1')
+                    else:
+                        near = None
                 else:
                     near = None
                 if near:
